@@ -289,6 +289,7 @@ func (w *CWorld) Pump() {
 		// goroutines have no defined order: canonicalise (datagrams promise no order anyway)
 		sort.Slice(recs, func(i, j int) bool { return bytes.Compare(recs[i], recs[j]) < 0 })
 		for _, b := range recs {
+			w.E.Pool.CheckWireRaw(b)
 			m, err := DecodeUDP(b)
 			if err != nil {
 				w.E.Violate("HARNESS", "endpoint-sent-garbage", "peer cannot parse record: %v", err)
